@@ -104,7 +104,7 @@ def m_bad_default(S, rnd):
     return "invalid-default"
 
 
-def m_iface(S, rnd):
+def m_iface(S, rnd, k=None):
     impls = [t for t in objs(S, ["OBJECT", "INTERFACE"]) if t["interfaces"]]
     if not impls:
         return None
@@ -117,7 +117,14 @@ def m_iface(S, rnd):
     g = next((x for x in t["fields"] if x["name"] == f["name"]), None)
     if g is None:
         return None
-    k = rnd.choice(["missing", "type", "arg-missing", "arg-type", "extra-required", "deprecated"])
+    k = k or rnd.choice(["missing", "type", "arg-missing", "arg-type", "extra-required", "deprecated"])
+    if k in ("arg-missing", "arg-type") and not g["args"]:
+        # pick a field that has arguments, if the interface has one
+        withargs = [x for x in it["fields"] if x["args"] and any(y["name"] == x["name"] for y in t["fields"])]
+        if not withargs:
+            return None
+        f = rnd.choice(withargs)
+        g = next(x for x in t["fields"] if x["name"] == f["name"])
     if k == "missing":
         t["fields"] = [x for x in t["fields"] if x["name"] != f["name"]]
         if not t["fields"]:
@@ -132,7 +139,13 @@ def m_iface(S, rnd):
         if not g["args"]:
             return None
         a = g["args"][0]
-        a["type"] = ["L", a["type"]] if a["type"][0] != "L" else a["type"][1]
+        if a["type"][0] in ("L", "NN") and rnd.random() < 0.6:
+            # same depth, another kind of wrapper: [T] <-> T!
+            a["type"] = ["NN" if a["type"][0] == "L" else "L", a["type"][1]]
+            if a["type"][0] == "NN" and a["type"][1][0] == "NN":
+                a["type"] = ["L", a["type"][1]]
+        else:
+            a["type"] = ["L", a["type"]] if a["type"][0] != "L" else a["type"][1]
         a["hasDefault"], a["default"] = False, {"t": "null"}
         a["deprecation"] = None
     elif k == "extra-required":
@@ -270,7 +283,13 @@ def m_implements(S, rnd):
     return "implements-" + k
 
 
-MUTATORS = [m_empty_type, m_input_in_output, m_output_in_input, m_bad_default, m_iface, m_union, m_reserved, m_cycle, m_oneof,
+def _iface(k):
+    def m(S, rnd):
+        return m_iface(S, rnd, k)
+    return m
+
+
+MUTATORS = [_iface("arg-type"), _iface("arg-type"), _iface("type"), _iface("arg-missing"), _iface("extra-required"), m_empty_type, m_input_in_output, m_output_in_input, m_bad_default, m_iface, m_union, m_reserved, m_cycle, m_oneof,
             m_deprecated_required, m_roots, m_implements]
 
 
